@@ -1,7 +1,8 @@
 /-
   C10 — transition sequences are sound oracles (see tools/agent_briefs/C10.md).
-  T2 `inorder_replays` and T1 `topdown_replays` are proved in full; for T3 `gap_replays` see the
-  partial results and the note at the end of the file.
+  All statements of the brief are proved: the textual round trips, `plainLine_shape`, `topdown_length`,
+  `inorder_counts`, T2 `inorder_replays`, T1 `topdown_replays` and T3 `gap_replays` (split into partial
+  correctness `gap_replays_of_ok` and totality `gap_terminates`).
 -/
 import TT.Spec.Replay
 import TT.Spec.Transform
@@ -152,6 +153,9 @@ theorem inorder_run (s : Tree) (hne : s.noEmpty = true) (hn : s.leafNums.Nodup) 
   let ⟨r, h, hrel⟩ := io_run s ⟨hne, hn, hc⟩ stack rest
   ⟨r, h, hrel.agrees⟩
 
+/-- the hypotheses of `inorder_replays` hold on a ternary tree stored out of order -/
+example : ∃ r, replayInorder exTop (inorder exTop) = some r ∧ agrees exTop r = true :=
+  inorder_replays exTop (by decide +kernel) (by decide +kernel)
 example : (replayInorder exTop (inorder exTop)).map (agrees exTop) = some true := by decide +kernel
 example : (replayInorder exCont (inorder exCont)).map (agrees exCont) = some true := by decide +kernel
 example : (replayInorder exOne (inorder exOne)).map (agrees exOne) = some true := by decide +kernel
@@ -186,6 +190,10 @@ theorem headsMarked_spec (t : Tree) (h : headsMarked t = true) :
   simpa using this
 
 example : headsMarked exCont = true ∧ headsMarked exOne = true := by decide +kernel
+/-- the hypotheses of `topdown_replays` hold on the continuous tree of the suite -/
+example : ∃ acts r, topdown exCont = .ok acts ∧ replayTopdown exCont acts = some r ∧ agrees exCont r = true :=
+  topdown_replays exCont (by decide +kernel) (by decide +kernel) (by decide +kernel)
+    (headsMarked_spec exCont (by decide +kernel))
 /-- the golden sequence of the suite -/
 example : (topdown exCont).toOption = some [.shift, .shift, .unary "VP".toList, .shift, .unary "NP".toList, .shift,
     .binary true "@SBAR".toList, .binary true "SBAR".toList, .shift, .shift, .binary true "@VP".toList,
@@ -207,8 +215,37 @@ theorem gap_replays_of_ok (t : Tree) (hwf : WF t = true) (hb : maxArity t ≤ 2)
     (h : gapOracle t = .ok acts) : ∃ r, replayGap t acts = some r ∧ agrees t r = true :=
   gap_sound t ⟨Lemmas.WF.WF_noEmpty t hwf, Lemmas.WF.WF_nodup t hwf, hb⟩ acts h
 
-/-- the hypothesis of T3 in decidable form -/
-def headsAll (t : Tree) : Bool := t.subtrees.all fun s => s.beq t || s.fields.head.isSome
+/-- T3, totality: on a well-formed, at most binary tree whose non-root nodes all carry a head mark the oracle
+    never shifts from an empty buffer and stops within its fuel `4·size² + 8` (at most `4·size + 1`
+    iterations are needed: see `Lemmas.Trans.gmeasure`) -/
+theorem gap_terminates (t : Tree) (hwf : WF t = true) (hb : maxArity t ≤ 2)
+    (hh : ∀ s ∈ t.subtrees, s ≠ t → s.fields.head.isSome) : ∃ acts, gapOracle t = .ok acts :=
+  gap_total t ⟨Lemmas.WF.WF_noEmpty t hwf, Lemmas.WF.WF_nodup t hwf, hb⟩ (HeadsP_of t hh)
+
+/-- T3 (stretch): the gap oracle terminates within its fuel on every well-formed binarized head-marked tree,
+    continuous or not, and its sequence replays to the tree -/
+theorem gap_replays (t : Tree) (hwf : WF t = true) (hb : maxArity t ≤ 2)
+    (hh : ∀ s ∈ t.subtrees, s ≠ t → s.fields.head.isSome) :
+    ∃ acts r, gapOracle t = .ok acts ∧ replayGap t acts = some r ∧ agrees t r = true := by
+  obtain ⟨acts, hacts⟩ := gap_terminates t hwf hb hh
+  obtain ⟨r, hr, ha⟩ := gap_replays_of_ok t hwf hb acts hacts
+  exact ⟨acts, r, hacts, hr, ha⟩
+
+/-- the hypothesis of T3 in decidable form: every node below the root carries a head mark -/
+def headsAll (t : Tree) : Bool := t.kids.all fun k => k.subtrees.all fun s => s.fields.head.isSome
+
+theorem headsAll_spec (t : Tree) (h : headsAll t = true) :
+    ∀ s ∈ t.subtrees, s ≠ t → s.fields.head.isSome := by
+  intro s hs hne
+  cases t with
+  | leaf n f =>
+    simp only [subtrees, List.mem_singleton] at hs
+    exact absurd hs hne
+  | node f ks =>
+    rcases (Lemmas.WF.mem_subtrees_node f ks s).1 hs with rfl | ⟨k, hk, hsk⟩
+    · exact absurd rfl hne
+    · simp only [headsAll, kids, List.all_eq_true] at h
+      exact h k hk s hsk
 
 /-- the golden sequence of the suite (`TRANS_DISCONT_GAP_TRANSITIONS`) -/
 example : (gapOracle exGap).toOption = some [.shift, .shift, .shift, .r true "@S".toList, .shift, .shift,
@@ -216,6 +253,9 @@ example : (gapOracle exGap).toOption = some [.shift, .shift, .shift, .r true "@S
     .r false "VP".toList, .gap, .gap, .r true "SBAR".toList, .r true "VP".toList, .r true "S".toList, .shift,
     .r true "VROOT".toList] := by decide +kernel
 example : headsAll exGap = true ∧ headsAll exCont = true ∧ headsAll exOne = true := by decide +kernel
+/-- the hypotheses of `gap_replays` hold on the discontinuous tree of the suite -/
+example : ∃ acts r, gapOracle exGap = .ok acts ∧ replayGap exGap acts = some r ∧ agrees exGap r = true :=
+  gap_replays exGap (by decide +kernel) (by decide +kernel) (headsAll_spec exGap (by decide +kernel))
 example : (match gapOracle exGap with | .ok acts => (replayGap exGap acts).map (agrees exGap) | .error _ => none)
     = some true := by decide +kernel
 example : (match gapOracle exCont with | .ok acts => (replayGap exCont acts).map (agrees exCont) | .error _ => none)
